@@ -46,21 +46,16 @@ theorem scanRows_done_mono (ord : Nat) : ∀ (fxs : List Fx) (row : Nat) (st st'
           (ord < st.cnt.length → row < (st.cnt.getD ord []).length → cntAt vs.cnt ord row ≠ 0) ∧ vs.osv = 0 := by
         intro vs hvs
         subst hvs
-        refine ⟨by rw [visitStep_cnt, cntInc_length, hc], ?_, ?_, ?_, visitStep_osv ..⟩
-        · intro o; rw [visitStep_cnt, cntInc_row_length, hc]
-        · intro o r hne
-          rw [visitStep_cnt, hc, cntAt_cntInc_ne]
-          · exact hne
-          · intro hh; rw [hh.1, hh.2] at hne; exact hne hv0
-        · intro h1 h2
-          rw [visitStep_cnt, hc, cntAt_cntInc_eq _ _ _ h1 h2]; omega
+        obtain ⟨f1, f2, f3, f4⟩ := visitStep_cnt_facts ord row fx (clampBpm st)
+        exact ⟨by rw [f1, hc], fun o => by rw [f2, hc], fun o r hne => f3 o r (by rw [hc]; exact hne),
+          fun h1 h2 => f4 (by rw [hc]; exact h1) (by rw [hc]; exact h2), visitStep_osv ..⟩
       obtain ⟨k1, k2, k3, k4, k5⟩ := key _ rfl
       cases fx with
       | jump j =>
         simp only at h
         cases h
         exact ⟨k1, k2, k3, (fun hh => by cases hh), fun _ => k5, fun _ h1 h2 => k4 h1 h2⟩
-      | none | speed _ | tempo _ | delay _ =>
+      | none | speed _ | tempo _ | delay _ | rowdelay _ =>
         simp only at h
         obtain ⟨i1, i2, i3, i4, i5, _⟩ := ih _ _ _ _ h
         refine ⟨by rw [i1, k1], fun o => by rw [i2, k2], fun o r hne => i3 o r (k3 o r hne),
